@@ -230,6 +230,22 @@ def impl_roland_decode(fat):
         RF.FAT_NUM_ENTRIES = 0x10000
 
 
+def roland_scaling_ok():
+    """The small-table relations run the real decoder on tables of a dozen entries by re-binding the module constant
+    FAT_NUM_ENTRIES around the call.  That works only while the decoder reads the constant at call time - an internal detail.
+    When a 12-entry table with one chain 2->3 no longer decodes that way (the table length is derived elsewhere), the
+    small-table relations are skipped and full-size tables (with chains at both ends of the table) carry the comparison."""
+    fat = [0xfffa, 0, 3, 0xffff] + [0] * 6 + [0xffff, 0xffff]
+    try:
+        area = impl_roland_decode(fat)
+        area.fat.get_file(2, 0)
+        return True
+    except (IndexError, TypeError, AttributeError, KeyError):
+        return False
+    except Exception:
+        return True          # any other failure is for the relations themselves to judge
+
+
 def raw_roland_chain(fat, s):
     n, seen, cur = len(fat), [], s
     while True:
@@ -293,7 +309,7 @@ def w_roland(pid, tier, seed, job):
 def w_roland_big(pid, tier, seed, job):
     ctx = F.Ctx(pid, tier, seed)
     rng = random.Random(job)
-    n = 0x10000 if rng.random() < 0.3 else rng.randint(40, 4000)
+    n = 0x10000 if (rng.random() < 0.3 or not roland_scaling_ok()) else rng.randint(40, 4000)
     fat = [0] * n
     fat[0] = 0xfffa
     fat[-2] = rng.choice([0xffff, 0xffff, 0xfffe])
@@ -301,6 +317,16 @@ def w_roland_big(pid, tier, seed, job):
     free = list(range(2, n - 9))
     rng.shuffle(free)
     starts = []
+    # chains at both ends of the table: heads at the last / first usable cluster, a chain running through the last one
+    forced = [[n - 10, n - 20, n - 12], [2, n - 11, 3], [n - 30, n - 10 - 3, n - 14]] if n >= 64 else []
+    for c in forced:
+        if all(x in free for x in c):
+            for x in c:
+                free.remove(x)
+            for a, b in zip(c, c[1:]):
+                fat[a] = b
+            fat[c[-1]] = 0xffff
+            starts.append(c[0])
     for _ in range(rng.randint(3, 40)):
         ln = rng.randint(1, 10)
         if len(free) < ln:
@@ -433,7 +459,10 @@ def run(ctx):
     ws = rwords(live + 2)
     cnt = 4000 if ctx.quick else 200000
     jobs += list(chunks((tuple([rng.choice([0xfffa, 0xfffa, 0xfffa, 0]), 5] + [rng.choice(ws) for _ in range(live)] + [0] * 7 + [0xffff, rng.choice([0xffff, 0xfffe])]) for _ in range(cnt)), 1500))
-    F.pmap(ctx, w_roland, jobs)
+    if roland_scaling_ok():
+        F.pmap(ctx, w_roland, jobs)
+    else:
+        ctx.note("C07: the small-table Roland relations are skipped (the decoder no longer takes the table length from the re-bound module constant); full-size tables only")
     F.pmap(ctx, w_roland_big, [ctx.seed * 1000 + i for i in range(8 if ctx.quick else 100)])
     ctx.exhaustive = True
     ctx.note("exhaustive spaces: link tables n<=%d; AKAI SAT tables n<=%d; Roland FAT live clusters<=%d; beyond that seeded random" % (nmax, na, nr))
